@@ -35,11 +35,10 @@ type layerA struct {
 }
 
 func layersA(thorough bool) []layerA {
-	ls := []layerA{{"leaves8", leaves8, 0, 5}}
 	if thorough {
-		ls = append(ls, layerA{"leaves4-size6", leaves4, 6, 6})
+		return []layerA{{"leaves8", leaves8, 0, 5}, {"leaves4-size6", leaves4, 6, 6}}
 	}
-	return ls
+	return []layerA{{"leaves8", leaves8, 0, 4}, {"leaves4-size5", leaves4, 5, 5}}
 }
 
 func tupleNesting(n *ref.Node) int {
